@@ -97,3 +97,33 @@ def bool_conditions(prog, body, bb):
 def short(n):
     return (n or "").replace("pasfmt_core::defaults::", "").replace("pasfmt_core::rules::", "").replace("pasfmt_core::", "") \
         .replace("pasfmt_orchestrator::", "orch::")
+
+
+def enum_variants_mentioned(body):
+    """variant names that the body constructs or refers to as constants: aggregates `E::V{}` and promoted `&E::V`."""
+    out = []
+    for bb, i, s in body.stmts():
+        if s["k"] != "assign":
+            continue
+        rv = s["rv"]
+        if rv["k"] == "aggregate" and rv.get("agg") == "adt" and not rv["ops"]:
+            out.append((norm(rv["adt"]), rv["variant"]))
+        for op in _rv_operands(rv):
+            if op["k"] == "const" and "enum_variant" in op:
+                out.append((norm(op.get("adt", "")), op["enum_variant"]))
+    for c in body.calls():
+        for op in c.args:
+            if op["k"] == "const" and "enum_variant" in op:
+                out.append((norm(op.get("adt", "")), op["enum_variant"]))
+    return out
+
+
+def const_args(body, site):
+    """string/char constants reaching the arguments of a call (through copies)"""
+    og = Origins(body)
+    out = []
+    for a in site.args:
+        for x in og.of_operand(a):
+            if x[0] == "const" and x[1] in ("str", "char"):
+                out.append(x[2] if x[1] == "str" else chr(x[2]))
+    return out
